@@ -26,7 +26,7 @@ RULE = ('random trees mixing .py / .pyc / .pyo (protected by a sibling .py '
 ASSUMPTIONS = ['model computed by an independent walk of the real tree',
                'leniency: a bare ".pyc"/".pyo" name and orphans behind a '
                'symbolic link may or may not be deleted']
-FLOORS = {'runs': 400, 'orphans_must': 600, 'protected_checked': 2000,
+FLOORS = {'late_orphans_judged': 20, 'runs': 400, 'orphans_must': 600, 'protected_checked': 2000,
           'keep_runs': 100, 'audit_events': 500, 'lookalikes_checked': 800,
           'symlinked_cache_dirs': 40, 'orphans_beside_renamed_source': 30,
           'cleanup_and_discovery_cases': 60}
@@ -52,8 +52,17 @@ def batch_size(tier):
 def cases(tier, seed):
     rng = random.Random(seed * 7001 + 15)
     n = 600 if tier == 'quick' else 12000
-    return [{'idx': i, 'wseed': rng.randrange(1 << 30),
-             'strace': (i % 97 == 5)} for i in range(n)]
+    out = [{'idx': i, 'wseed': rng.randrange(1 << 30),
+            'strace': (i % 97 == 5)} for i in range(n)]
+    # source-less bytecode that appears while the run is under way (a layer
+    # or test that compiles a module and ships the .pyc only, a build step):
+    # every runner process cleans up before *its* discovery, so a layer
+    # subprocess started afterwards must remove it (and only it)
+    m = 40 if tier == 'quick' else 600
+    out += [{'idx': n + i, 'wseed': rng.randrange(1 << 30), 'late': True}
+            for i in range(m)]
+    rng.shuffle(out)
+    return out
 
 
 DIRS = ['pkg', 'sub', 'tests', 'lib', 'x-y', '1abc', '.git', 'node_modules',
@@ -214,7 +223,117 @@ def model(root, search_dirs, ignore_dir):
     return must, may
 
 
+def run_late(case):
+    import common
+    import gen
+    import vworld
+    rng = random.Random(case['wseed'])
+    prefix = 'vwb%d' % case['idx']
+    mode = rng.choice(['par', 'par', 'resume', 'resume', 'seq'])
+    nl = 3 if mode == 'par' else rng.randint(2, 3)
+    layers = [{'name': 'L%s' % c, 'kind': 'class', 'bases': [],
+               'hooks': {'setUp': 'ok', 'tearDown': 'ok'}}
+              for c in 'abc'[:nl]]
+    if mode == 'resume':
+        layers[0]['hooks']['tearDown'] = 'nie'
+    pkg = prefix + '_p'
+    orphans = rng.sample([pkg + '/ghost.pyc', pkg + '/tests/ghost2.pyo',
+                          'top_level.pyc', pkg + '/tests/test_gone.pyc',
+                          pkg + '/sub/deep.pyo', 'work-dir/x.pyc',
+                          pkg + '/tests/tests.pyc'], rng.randint(1, 4))
+    protected = rng.sample([pkg + '/tests/test_m0.pyc',
+                            pkg + '/tests/__init__.pyo',
+                            pkg + '/__pycache__/ghost.cpython-312.pyc',
+                            pkg + '/tests/__pycache__/ghost3.pyc',
+                            pkg + '/ghost.pyc.bak', pkg + '/ghostpyc',
+                            pkg + '/tests/CVS/old.pyc',
+                            prefix + '_layers.pyc'], rng.randint(1, 4))
+    acts = [{'ph': rng.choice(['setUp', 'body', 'tearDown']),
+             'do': 'write_file', 'path': pth, 'text': 'not bytecode'}
+            for pth in orphans + protected]
+    rng.shuffle(acts)
+    tbl = {}
+    for i, ls in enumerate(layers):
+        tbl[ls['name']] = [{'name': 'test_%d' % k, 'kind': 'pass',
+                            'actions': acts if (i, k) == (0, 0) else []}
+                           for k in range(rng.randint(1, 2))]
+    spec = gen.simple_world(prefix, layers, tbl)
+    opts = {'verbose': rng.randint(0, 2)}
+    plan = None
+    if mode == 'par':
+        # -j 2 runs every layer in a subprocess, two at a time: Lb holds in
+        # its first test until the parent has reaped La, so Lc's subprocess
+        # is started after La's test has written the files
+        opts['processes'] = 2
+        lm = spec['layers_module']
+        first_b = [tid for tid, ts, layer, lvl, m, node
+                   in vworld.iter_tests(spec) if layer == 'Lb'][0]
+        plan = {'holds': [{'point': 'test.body:' + first_b,
+                           'child_only': True, 'timeout': 45,
+                           'wait_for': ['reaped.%s.La' % lm]}]}
+    keep = rng.choice([None, None, None, '-k', '--usecompiled'])
+    viol = []
+    counters = {}
+
+    def C(k, n=1):
+        counters[k] = counters.get(k, 0) + n
+
+    def V(rule, mech, **d):
+        d.update(mode=mode, keep=keep, orphans=orphans, protected=protected,
+                 neutral=getattr(w, 'neutral', None))
+        if len(viol) < 8:
+            viol.append({'rule': rule, 'mech': mech, 'detail': d})
+
+    root = vworld.materialise(spec)
+    w = None
+    try:
+        w = common.run_world(spec, plan, opts, root=root, markers=True,
+                             extra_argv=[keep] if keep else [])
+        if any(e['k'] == 'barrier.timeout' for e in w.events):
+            return {'inconclusive': 'barrier timed out'}
+        C('runs')
+        C('late_runs')
+        if w.raised is not None:
+            V('run-aborted', 'run-raised', tb=(w.raised_tb or '')[-700:])
+            return {'viol': viol, 'evals': 1, 'counters': counters}
+        written = {e['path'] for e in w.events if e['k'] == 'file.written'}
+        if written != set(orphans + protected):
+            return {'inconclusive': 'the files were not written'}
+        kept = bool(keep) or '--keepbytecode' in (w.neutral or [])
+        pids = {e['pid'] for e in w.events if e['k'] == 'test.body'}
+        if mode == 'par':
+            # (three subprocesses; Lc's came after the files)
+            pids = pids if len(pids) == 3 else set()
+        left = [p for p in orphans if os.path.exists(os.path.join(root, p))]
+        gone = [p for p in protected
+                if not os.path.exists(os.path.join(root, p))]
+        if gone:
+            V('deleted-a-file-that-is-not-an-orphan',
+              'bytecode-deleted-non-orphan', extra=gone)
+        C('protected_checked', len(protected))
+        if kept:
+            C('keep_runs')
+            if len(left) != len(orphans):
+                V('deleted-despite-keep-option', 'bytecode-keep-deleted',
+                  deleted=[p for p in orphans if p not in left])
+        elif mode != 'seq' and len(pids) >= 2:
+            # a runner process started after the files had appeared
+            C('late_orphans_judged', len(orphans))
+            C('orphans_must', len(orphans))
+            if left:
+                V('orphan-not-deleted', 'bytecode-orphan-kept', missing=left)
+        else:
+            C('late_runs_without_a_later_process')
+    finally:
+        vworld.destroy(root)
+    return {'viol': viol, 'evals': 1, 'counters': counters,
+            'sig': [mode, keep, sorted(orphans), sorted(protected)],
+            'sample': {'mode': mode, 'keep': keep, 'orphans': orphans}}
+
+
 def run_case(case):
+    if case.get('late'):
+        return run_late(case)
     import runcase
     import vworld
     import ztr_monitor
